@@ -30,6 +30,11 @@ REASONS = {
  'C16-m9': "`?` inside a loop returns from the whole function where the closure version skipped one entry: control flow of a metadata scan",
  'C20-m7': "`todate` redefined through strftime in defs.jq: jq-level definition",
  'C20-m9': "`fromdate` parses a civil date-time first and drops a numeric offset: calendar library semantics",
+ 'C02-m7': "`foreach .. |= u` applies the update leaf-to-root instead of root-to-leaf: order of two recursive calls in the fold updater",
+ 'C02-m8': "`paths(p)` redefined in defs.jq (root no longer excluded): jq-level definition",
+ 'C02-m9': "`recurse` aliased to `..` in defs.jq (changes the update order): jq-level definition",
+ 'C08-m9': "`unique` redefined in defs.jq (drops null): jq-level definition",
+ 'C09-m8': "object `*` overwrites instead of merging when the right sub-object is empty: a guard on a value",
  'C05-m8': "a swapped test lets an unparsable text into `Num::Dec`: the invariant of the decimal text is not computed",
 }
 rows = []
